@@ -226,7 +226,7 @@ func report(prop string, cfg *PropConfig, w *World, results []*FnResult, missing
 	}
 
 	// evidence
-	var trusted []string
+	trusted := []string{}
 	for t := range w.Trusted {
 		trusted = append(trusted, t)
 	}
